@@ -62,7 +62,7 @@ def exc_key(exc):
     msg = re.sub(r"\(line \d+:\d+\)", "(line L:C)", msg)
     msg = re.sub(r"'[^']*'", "'S'", msg)
     msg = re.sub(r'"[^"]*"', "'S'", msg)
-    msg = re.sub(r"\b(var|Var|variable|array|Array var) \w+", r"\1 X", msg)
+    msg = re.sub(r"\b(var|Var|variable|array|Array var|parameter|operation) \w+", r"\1 X", msg)
     msg = re.sub(r"\d+(\.\d+)?", "N", msg)
     return "%s@%s:%s" % (type(exc).__name__, stage_of(exc), msg[:60])
 
